@@ -275,9 +275,14 @@ char *str_nstrtok( char **pptr, char *deli )
    len = strspn( ptr, deli );
    if (len > 0)
       {
-      tok = ptr - 1;
+/*
+ * an empty token: the delimiter itself becomes the terminator of an empty string
+ * (ptr - 1 is not: it lies before the buffer for a leading delimiter, and on
+ * a delimiter after a quoted token)
+ */
+      *ptr = '\0';
       *pptr = ptr + 1;
-      return tok;
+      return ptr;
       }
    tok = ptr;
    if (ptr[0] == '"')
